@@ -52,6 +52,8 @@ class Event:
         self.probe = probe  # a branch off the main trajectory
         self.post_terminal = False
         self.legal_only = True
+        self.meta = {}
+        self.prev_event = None
         self._cache: Dict[str, Any] = {}
 
     def _get(self, name, fn):
@@ -65,6 +67,8 @@ class Event:
 
     @property
     def S0(self) -> Optional[Dict[str, np.ndarray]]:
+        if self.prev_event is not None:
+            return self.prev_event.S
         return None if self.prev_state is None else self._get("S0", lambda: decode(self.prev_state))
 
     @property
@@ -73,6 +77,8 @@ class Event:
 
     @property
     def O0(self) -> Optional[Dict[str, np.ndarray]]:
+        if self.prev_event is not None:
+            return self.prev_event.O
         return None if self.prev_ts is None else self._get("O0", lambda: decode(self.prev_ts.observation))
 
     @property
@@ -255,8 +261,13 @@ def run_episode(
             after_last += 1
         elif probe_fn is not None:
             for pa in probe_fn(ev) or []:
+                meta = {}
+                if isinstance(pa, tuple):
+                    pa, meta = pa
                 s2, ts2 = runner.step(state, pa)
                 pev = Event(runner, episode, t + 1, key_int, acts + [np.asarray(pa)], state, pa, s2, ts2, prev_ts=ts, probe=True)
+                pev.meta = meta
+                pev.prev_event = ev
                 for m in monitors:
                     m.on_step(pev)
         ctx.update(ts=ts, state=state, t=t)
@@ -264,7 +275,9 @@ def run_episode(
         s2, ts2 = runner.step(state, a)
         acts.append(np.asarray(a))
         t += 1
+        prev_ev = ev
         ev = Event(runner, episode, t, key_int, list(acts), state, a, s2, ts2, prev_ts=ts)
+        ev.prev_event = prev_ev
         ev.post_terminal = after_last > 0
         ev.legal_only = ctx["legal_only"]
         if not ev.post_terminal:
